@@ -207,7 +207,10 @@ def run_case(ctx, prop, exe, lines, origin, argv=(), oracle=None, model_args=())
     tr = Trace(lines, impl)
     fails = oracle(tr) if oracle else []
     if tr.crash and not fails:
-        fails.append(("crash", "step %d `%s`: %s" % (tr.crash[0], tr.ops[tr.crash[0]] if tr.crash[0] < len(tr.ops) else "?", tr.crash[1])))
+        san = [l.strip() for l in err.split("\n") if "ERROR: AddressSanitizer" in l or "runtime error:" in l or l.startswith("SUMMARY:")]
+        kind = "sanitizer" if san else "crash"
+        fails.append((kind, "step %d `%s`: %s %s" % (tr.crash[0], tr.ops[tr.crash[0]] if tr.crash[0] < len(tr.ops) else "?", tr.crash[1],
+                                                      " | ".join(san[:2])[:400])))
     mismatch = None
     if ctx.model_ok:
         from . import leanside
@@ -300,6 +303,17 @@ class ConnProp:
         elif mm:
             case2 = Case("conn", ["# flavour=%s argv=%s" % (flav, be)] + lines, origin)
             ctx.mismatches.append((case2, mm + " [%s/%s]" % (flav, be)))
+            if "asan" not in flav and not getattr(ctx, "_asan_tried", 0) >= 6:
+                # model and implementation part ways: does the sanitizer see the implementation do something illegal here?
+                ctx._asan_tried = getattr(ctx, "_asan_tried", 0) + 1
+                aflav = "asan-ndebug" if "ndebug" in flav else "asan"
+                aexe = ctx.exe("conn_drv", aflav)
+                c3, impl3, tr3, fails3, _ = run_case(ctx, self, aexe, lines, origin, argv=[be], model_args=margs,
+                                                     oracle=lambda tr: self.oracle(lines, tr))
+                if fails3:
+                    kind, desc = fails3[0]
+                    c4 = Case("conn", ["# flavour=%s argv=%s" % (aflav, be)] + lines, origin, meta={"argv": [be]})
+                    ctx.oracle_failures.append((c4, kind, desc + " [%s/%s]" % (aflav, be)))
         return fails, mm
 
     def shrink(self, ctx, exe, lines, be, flav, kind):
@@ -318,6 +332,9 @@ class ConnProp:
             return lines
 
     def configs(self, ctx):
+        if ctx.quick() and ctx.search_mode:
+            # an obligation or tie broke: look for a concrete failing input with the sanitizer as well
+            return [("dbg", "epoll"), ("asan", "epoll"), ("dbg", "poll"), ("ndebug", "epoll")]
         if ctx.quick():
             return [("dbg", "epoll"), ("dbg", "poll"), ("ndebug", "epoll")]
         return [("dbg", "epoll"), ("dbg", "poll"), ("ndebug", "epoll"), ("ndebug", "poll"), ("asan", "epoll"), ("asan-ndebug", "poll")]
